@@ -183,7 +183,7 @@ var c12Sel = []string{
 	"SELECT t.id, u.id AS uid FROM u RIGHT JOIN t ON t.k = u.k WHERE u.w > 3",
 	"SELECT t.id, u.id AS uid FROM t LEFT JOIN u ON t.k = u.k WHERE t.id % 3 = 0",
 	"SELECT k, t.id, u.id AS uid FROM t JOIN u USING (k) WHERE t.v = u.w",
-	"SELECT t.id, u.id AS uid FROM t NATURAL JOIN u",
+	"SELECT id, k, v, w FROM t NATURAL JOIN u",
 	"SELECT t.id, x.id AS xid FROM t CROSS JOIN (SELECT id FROM u WHERE id <= 3) x WHERE t.id % 11 = 0",
 	"SELECT k, COUNT(*) AS c, SUM(v) AS sv, MIN(s) AS mn, MAX(id) AS mx FROM t GROUP BY k",
 	"SELECT k, v, COUNT(*) AS c FROM t GROUP BY k, v",
